@@ -13,6 +13,7 @@ Decided (structure of spifconf_shell_expand and the variable store):
   V6  the variable store: every early exit of the lookup loop is decided by the same ordering function that the
       insertion uses (strcmp), so lookup and insertion agree on the order
   V4  every indexed store into the result buffer is below its size (GHOSTPOS over the output index; also with DEBUG=0)
+  B1  CAP over the builtin_* functions: every write into their buffers (the %exec command line, ...) is bounded
 Not decided: the value of the expansion (escape table, quoting, %put/%get semantics)."""
 import re
 
@@ -38,7 +39,7 @@ def run(tier="quick"):
                             "bounded copies, effect set, ordering agreement of the variable store")
     for rid, txt in (("N1", "input cursor never passes the terminator"), ("V1", "every iteration writes position j or retracts j"),
                      ("V2", "bounded copies: destination newbuff + j, size max - j"), ("V3", "result terminated at j"), ("V4", "every indexed store into the result buffer is inside it"),
-                     ("V5", "effects within the declared set"), ("V6", "lookup early exits use the insertion's ordering function")):
+                     ("V5", "effects within the declared set"), ("B1", "the built-ins' buffer writes are bounded (CAP)"), ("V6", "lookup early exits use the insertion's ordering function")):
         chk.rule(rid, txt)
     prog = facts.extract(only=["conf.c"])
     u = prog.units["conf.c"]
@@ -270,6 +271,17 @@ def run(tier="quick"):
                               "lookup and insertion can disagree on the order and stored variables become unreachable" % (
                                   g.name, X.render(cond)[:50], "/".join(sorted(ordfn))),
                        proof="decided by %s" % "/".join(sorted(ordfn)))
+    # ---- B1 the built-ins the expansion calls keep every write inside their own buffers (the command line built by %exec,
+    # the number printed by %random, the directory listing): CAP with the string/file tools that store through a pointer
+    # argument interpreted as well
+    from ..capcheck import run_cap
+    from .C11 import ConfCap
+    prog_all = facts.extract()
+    bfns = [g_ for g_ in prog_all.units["conf.c"].functions.values() if g_.name.startswith("builtin_") and g_.cfg is not None]
+    nb1, nund1, samp1 = run_cap(chk, prog_all, bfns, rule="B1", noreturn=NORETURN, cap_factory=lambda p: ConfCap(p, noreturn=NORETURN),
+                                kinds={"lower", "upper", "null", "count", "cursor", "freed"})
+    chk.count("builtins_analysed", nb1, floor=4)
+    chk.count("undecided_builtin_obligations", nund1)
     chk.count("cursor_events", nchecked, floor=30)
     chk.count("bounded_copy_sites", len(copies), floor=2)
     chk.count("iteration_ends", len(ends), floor=1)
